@@ -53,7 +53,11 @@ def run(tier, seed):
                 if r < 0.35 and len(merged) < len(ids):
                     i = rng.choice([x for x in ids if x not in merged])
                     w.append({"op": "Merge", "i": i})
-                    merged.add(i)                                  # (a refused merge is followed by an unmerge the model refuses too)
+                    # (generation only, no verdict hangs on it) a merge onto an element some merged model already speaks
+                    # for is refused: the model is then NOT merged, and unmerging it is outside the interface
+                    if not any(t in fam["fam"][j]["n"].get(x, {}).get("deleg", {})
+                               for x, d in fam["fam"][i]["n"].items() for t in d.get("deleg", {}) for j in merged):
+                        merged.add(i)
                 elif r < 0.65 and merged:
                     i = rng.choice(sorted(merged))
                     w.append({"op": "Unmerge", "i": i})
